@@ -17,7 +17,7 @@ Qed.
 
 Lemma main_messages_expand : forall e fl,
   main_messages (expand_with e fl) =
-    [keys_msg e; data_msg e; state_msg e fl; event_type_msg e; event_msg e] ++ map schema_msg (e_schemas e).
+    [keys_msg e; data_msg e; state_msg e fl; event_type_msg e; event_msg e] ++ flat_map schema_msgs (e_schemas e).
 Proof. intros. rewrite main_messages_eq. apply main_file_messages. Qed.
 
 Lemma services_of_app : forall a b, services_of (a ++ b) = services_of a ++ services_of b.
@@ -79,9 +79,10 @@ Proof.
   intros e fl. unfold expand_with. rewrite !services_of_app, services_of_query.
   rewrite (services_of_flat_map _ (fun c => [command_service e c]) _ (services_of_command e)).
   rewrite (services_of_flat_map _ (fun _ => []) _ (fun s => eq_refl : services_of (summary_components e s) = [])).
-  assert (E1 : services_of (map (fun sc => CMsg 0 (mkMsg (fst sc) None false (map of_ufield (snd sc)) []))
-                                (e_schemas e)) = []).
-  { induction (e_schemas e) as [|sc l IH]; [reflexivity|]. cbn [map]. exact IH. }
+  assert (E1 : services_of (map schema_component (e_schemas e)) = []).
+  { induction (e_schemas e) as [|sc l IH]; [reflexivity|]. cbn [map].
+    change (schema_component sc :: map schema_component l) with ([schema_component sc] ++ map schema_component l).
+    rewrite services_of_app, IH. destruct sc; reflexivity. }
   assert (E2 : forall l : list summary, flat_map (fun _ : summary => @nil osvc) l = []).
   { induction l; [reflexivity|assumption]. }
   assert (E3 : forall l, flat_map (fun c => [command_service e c]) l = map (command_service e) l).
@@ -194,8 +195,17 @@ Proof.
 Qed.
 
 (* ---- the expansion has exactly one KEYS, one STATE, one EVENT object ---------------------------- *)
-Lemma filter_schemas_nil : forall p l, filter (has_part p) (map schema_msg l) = [].
-Proof. intros p l. induction l as [|sc l IH]; [reflexivity|]. cbn [map filter]. exact IH. Qed.
+Lemma filter_schemas_nil : forall p l, filter (has_part p) (flat_map schema_msgs l) = [].
+Proof.
+  intros p l. induction l as [|sc l IH]; [reflexivity|]. cbn [flat_map]. rewrite filter_app, IH.
+  destruct sc; reflexivity.
+Qed.
+
+Lemma schema_msgs_unannotated : forall l m, In m (flat_map schema_msgs l) -> m_psm m = None.
+Proof.
+  intros l m H. apply in_flat_map in H. destruct H as [sc [_ H]].
+  destruct sc as [n fs|n fs|n os]; cbn in H; [destruct H as [<-|[]]|destruct H as [<-|[]]|destruct H]; reflexivity.
+Qed.
 
 Lemma good_parts_expand : forall e fl, good_parts (snake_name e) (main_messages (expand_with e fl)).
 Proof.
@@ -203,7 +213,7 @@ Proof.
   apply in_app_or in Hin. destruct Hin as [Hin|Hin].
   - cbn [In] in Hin. destruct Hin as [<-|[<-|[<-|[<-|[<-|[]]]]]]; cbn in Hm; inversion Hm; subst;
       split; auto.
-  - apply in_map_iff in Hin. destruct Hin as [sc [<- _]]. discriminate.
+  - rewrite (schema_msgs_unannotated _ _ Hin) in Hm. discriminate.
 Qed.
 
 Theorem include_any_order : forall e fl objs,
@@ -224,7 +234,7 @@ Proof.
       try (apply N.eqb_eq in E2); try (apply N.eqb_eq in E3); try (apply N.eqb_eq in E4); lia. }
   rewrite !(last_part_perm _ _ _ HP (Hone _)).
   rewrite main_messages_expand.
-  assert (Hs : forall p, last_part p (map schema_msg (e_schemas e)) = None).
+  assert (Hs : forall p, last_part p (flat_map schema_msgs (e_schemas e)) = None).
   { intros p. rewrite last_part_filter, filter_schemas_nil. reflexivity. }
   rewrite !last_part_app, !Hs. unfold annotated. rewrite existsb_app. reflexivity.
 Qed.
@@ -251,10 +261,9 @@ Lemma primary_json : forall ks,
   map f_json (filter f_primary (map (fun k => of_ufield (k_def k)) ks))
   = map uf_name (filter is_primary (map k_def ks)).
 Proof.
-  induction ks as [|[[n [pt k|nm|p f t] r o] s] ks IH]; [reflexivity| | |]; cbn [map filter k_def].
-  - exact IH.
-  - exact IH.
-  - cbn [of_ufield uf_kind f_primary is_primary uf_name]. destruct p; cbn [map f_json]; [f_equal|]; exact IH.
+  induction ks as [|[[n [pt k|nm|nm|nm|p f t|tn k|i|i|fs|fs|os] r o] s] ks IH]; [reflexivity| | | | | | | | | | |]; cbn [map filter k_def];
+    try exact IH.
+  cbn [of_ufield uf_kind f_primary is_primary uf_name]. destruct p; cbn [map f_json]; [f_equal|]; exact IH.
 Qed.
 
 Lemma command_methods_names : forall e c,
@@ -313,7 +322,7 @@ Definition hijack_sample : entity :=
       [mkK (mkU (bs "fooId") (KKey true None None) false false) false]
       [mkU (bs "snap") (KObject (bs "Snapshot")) false false]
       [bs "ACTIVE"] [mkEv (bs "Create") []] [] [] None
-      [(bs "Snapshot", [mkU (bs "keys") (KObject (bs "FooKeys")) false false])].
+      [SObject (bs "Snapshot") [mkU (bs "keys") (KObject (bs "FooKeys")) false false]].
 
 Theorem legacy_inference_refuted :
   let cs := expand_with hijack_sample [] in
@@ -326,4 +335,224 @@ Proof.
   cbv zeta. exists (rev (main_messages (expand_with hijack_sample []))), (main_messages (expand_with hijack_sample [])).
   split; [apply Permutation_rev|]. split; [apply Permutation_refl|].
   split; [vm_compute; reflexivity|]. eexists. split; [vm_compute; reflexivity|]. split; reflexivity.
+Qed.
+
+(* ---- several entities in one package ----------------------------------------------------------- *)
+Definition names (l : list centity) : list bytes := map cn_name l.
+
+Lemma upsert_at : forall name f l1 c l2 c',
+  ~ In name (names l1) -> cn_name c = name -> f c = Some c' ->
+  upsert name f (l1 ++ c :: l2) = Some (l1 ++ c' :: l2).
+Proof.
+  intros name f l1. induction l1 as [|x l1 IH]; intros c l2 c' Hn Hc Hf.
+  - cbn [app upsert]. rewrite Hc, bytes_eqb_refl, Hf. reflexivity.
+  - cbn [app upsert]. destruct (bytes_eqb (cn_name x) name) eqn:E.
+    + apply bytes_eqb_eq in E. exfalso. apply Hn. left. exact E.
+    + rewrite (IH c l2 c'); [reflexivity| |assumption|assumption].
+      intros H. apply Hn. now right.
+Qed.
+
+Lemma upsert_fresh : forall name f l c',
+  ~ In name (names l) -> f (empty_entity name) = Some c' ->
+  upsert name f l = Some (l ++ [c']).
+Proof.
+  intros name f l. induction l as [|x l IH]; intros c' Hn Hf.
+  - cbn [upsert app]. now rewrite Hf.
+  - cbn [app upsert]. destruct (bytes_eqb (cn_name x) name) eqn:E.
+    + apply bytes_eqb_eq in E. exfalso. apply Hn. left. exact E.
+    + rewrite (IH c'); [reflexivity| |assumption]. intros H. apply Hn. now right.
+Qed.
+
+Lemma fold_include_unannotated : forall l acc,
+  (forall m, In m l -> m_psm m = None) ->
+  fold_left (include_with m_psm) l (Some acc) = Some acc.
+Proof.
+  induction l as [|m l IH]; intros acc H; [reflexivity|]. cbn [fold_left include_with].
+  rewrite (H m (or_introl eq_refl)). apply IH. intros x Hx. apply H. now right.
+Qed.
+
+(* the objects of one entity, visited after those of others, add exactly its entry *)
+Lemma include_block : forall e fl acc,
+  ~ In (snake_name e) (names acc) ->
+  fold_left (include_with m_psm) (main_messages (expand_with e fl)) (Some acc)
+  = Some (acc ++ [the_entity e fl]).
+Proof.
+  intros e fl acc Hn. rewrite main_messages_expand, fold_left_app. cbn [fold_left].
+  set (c1 := mkCEnt (snake_name e) (Some (keys_msg e)) None None None []).
+  set (c2 := mkCEnt (snake_name e) (Some (keys_msg e)) (Some (state_msg e fl)) None None []).
+  assert (S1 : include_with m_psm (Some acc) (keys_msg e) = Some (acc ++ [c1])).
+  { unfold include_with. cbn [keys_msg m_psm]. now apply upsert_fresh. }
+  assert (S2 : include_with m_psm (Some (acc ++ [c1])) (data_msg e) = Some (acc ++ [c1])).
+  { unfold include_with. cbn [data_msg m_psm]. now apply upsert_at. }
+  assert (S3 : include_with m_psm (Some (acc ++ [c1])) (state_msg e fl) = Some (acc ++ [c2])).
+  { unfold include_with. cbn [state_msg m_psm]. now apply upsert_at. }
+  assert (S4 : include_with m_psm (Some (acc ++ [c2])) (event_type_msg e) = Some (acc ++ [c2])).
+  { reflexivity. }
+  assert (S5 : include_with m_psm (Some (acc ++ [c2])) (event_msg e) = Some (acc ++ [the_entity e fl])).
+  { unfold include_with. cbn [event_msg m_psm]. now apply upsert_at. }
+  rewrite S1, S2, S3, S4, S5.
+  apply fold_include_unannotated. intros m Hm. now apply (schema_msgs_unannotated (e_schemas e)).
+Qed.
+
+Definition file_components (l : list (entity * list bytes)) : list component :=
+  flat_map (fun p => expand_with (fst p) (snd p)) l.
+
+Lemma main_messages_app : forall a b, main_messages (a ++ b) = main_messages a ++ main_messages b.
+Proof. intros. apply flat_map_app. Qed.
+
+Lemma include_file_acc : forall l acc,
+  NoDup (map (fun p => snake_name (fst p)) l) ->
+  (forall p, In p l -> ~ In (snake_name (fst p)) (names acc)) ->
+  fold_left (include_with m_psm) (main_messages (file_components l)) (Some acc)
+  = Some (acc ++ map (fun p => the_entity (fst p) (snd p)) l).
+Proof.
+  induction l as [|p l IH]; intros acc Hnd Hacc.
+  - cbn. now rewrite app_nil_r.
+  - cbn [file_components flat_map]. rewrite main_messages_app, fold_left_app.
+    rewrite include_block by (apply Hacc; now left).
+    fold (file_components l). inversion Hnd as [|? ? Hnin Hnd']; subst.
+    rewrite IH; [cbn [map]; now rewrite <- app_assoc|assumption|].
+    intros q Hq Hin. unfold names in Hin. rewrite map_app in Hin. apply in_app_or in Hin.
+    destruct Hin as [Hin|Hin].
+    + apply (Hacc q (or_intror Hq)). exact Hin.
+    + cbn in Hin. destruct Hin as [Hin|[]]. apply Hnin. rewrite Hin.
+      apply (in_map (fun p0 => snake_name (fst p0)) l q Hq).
+Qed.
+
+Definition full_entity (e : entity) (fl : list bytes) : centity :=
+  mkCEnt (snake_name e) (Some (keys_msg e)) (Some (state_msg e fl)) (Some (event_msg e))
+         (Some (query_service e)) (map (command_service e) (e_commands e)).
+
+Lemma attach_commands_at : forall e cmds l1 c l2,
+  ~ In (snake_name e) (names l1) -> cn_name c = snake_name e ->
+  fold_left attach (map (command_service e) cmds) (Some (l1 ++ c :: l2)) =
+    Some (l1 ++ mkCEnt (cn_name c) (cn_keys c) (cn_state c) (cn_event c) (cn_query c)
+                       (cn_commands c ++ map (command_service e) cmds) :: l2).
+Proof.
+  intros e cmds. induction cmds as [|cmd l IH]; intros l1 c l2 Hn Hc.
+  - cbn. rewrite app_nil_r. destruct c; reflexivity.
+  - cbn [map fold_left]. unfold attach at 2. cbn [sv_ann command_service].
+    assert (Hex : existsb (fun c0 => bytes_eqb (cn_name c0) (snake_name e)) (l1 ++ c :: l2) = true).
+    { apply existsb_exists. exists c. split; [apply in_or_app; right; now left|]. rewrite Hc. apply bytes_eqb_refl. }
+    rewrite Hex.
+    erewrite upsert_at; [|exact Hn|exact Hc|reflexivity].
+    rewrite IH by (assumption || reflexivity).
+    cbn [cn_name cn_keys cn_state cn_event cn_query cn_commands]. rewrite <- app_assoc. reflexivity.
+Qed.
+
+Lemma attach_entity_block : forall e fl l1 l2,
+  ~ In (snake_name e) (names l1) ->
+  fold_left attach (query_service e :: map (command_service e) (e_commands e))
+            (Some (l1 ++ the_entity e fl :: l2))
+  = Some (l1 ++ full_entity e fl :: l2).
+Proof.
+  intros e fl l1 l2 Hn. cbn [fold_left]. unfold attach at 2. cbn [sv_ann query_service].
+  assert (Hex : existsb (fun c0 => bytes_eqb (cn_name c0) (snake_name e)) (l1 ++ the_entity e fl :: l2) = true).
+  { apply existsb_exists. exists (the_entity e fl). split; [apply in_or_app; right; now left|apply bytes_eqb_refl]. }
+  rewrite Hex.
+  erewrite upsert_at; [|exact Hn|reflexivity|reflexivity].
+  rewrite attach_commands_at by (assumption || reflexivity). reflexivity.
+Qed.
+
+Lemma services_of_file : forall l,
+  services_of (file_components l)
+  = flat_map (fun p => query_service (fst p) :: map (command_service (fst p)) (e_commands (fst p))) l.
+Proof.
+  induction l as [|p l IH]; [reflexivity|]. cbn [file_components flat_map].
+  rewrite services_of_app, services_of_expand. fold (file_components l). now rewrite IH.
+Qed.
+
+Lemma attach_file_acc : forall l done,
+  NoDup (map (fun p => snake_name (fst p)) l) ->
+  (forall p, In p l -> ~ In (snake_name (fst p)) (names done)) ->
+  fold_left attach
+    (flat_map (fun p => query_service (fst p) :: map (command_service (fst p)) (e_commands (fst p))) l)
+    (Some (done ++ map (fun p => the_entity (fst p) (snd p)) l))
+  = Some (done ++ map (fun p => full_entity (fst p) (snd p)) l).
+Proof.
+  induction l as [|p l IH]; intros done Hnd Hd; [reflexivity|].
+  cbn [flat_map map]. rewrite fold_left_app.
+  rewrite attach_entity_block by (apply Hd; now left).
+  inversion Hnd as [|? ? Hnin Hnd']; subst.
+  change (done ++ full_entity (fst p) (snd p) :: map (fun p0 => the_entity (fst p0) (snd p0)) l)
+    with (done ++ [full_entity (fst p) (snd p)] ++ map (fun p0 => the_entity (fst p0) (snd p0)) l).
+  rewrite app_assoc, IH; [now rewrite <- app_assoc|assumption|].
+  intros q Hq Hin. unfold names in Hin. rewrite map_app in Hin. apply in_app_or in Hin.
+  destruct Hin as [Hin|Hin].
+  - apply (Hd q (or_intror Hq)). exact Hin.
+  - cbn in Hin. destruct Hin as [Hin|[]]. apply Hnin. rewrite Hin.
+    apply (in_map (fun p0 => snake_name (fst p0)) l q Hq).
+Qed.
+
+Lemma find_msg_nodup : forall ms m,
+  NoDup (map m_name ms) -> In m ms -> find_msg ms (m_name m) = Some m.
+Proof.
+  induction ms as [|x ms IH]; intros m Hnd Hin; [destruct Hin|].
+  inversion Hnd as [|? ? Hnin Hnd']; subst. unfold find_msg. cbn [find].
+  destruct Hin as [->|Hin].
+  - now rewrite bytes_eqb_refl.
+  - destruct (bytes_eqb (m_name x) (m_name m)) eqn:E.
+    + apply bytes_eqb_eq in E. exfalso. apply Hnin. rewrite E. now apply in_map.
+    + now apply IH.
+Qed.
+
+Lemma to_grouping_full : forall ms e fl,
+  find_msg ms (component_name e (bs "EventType")) = Some (event_type_msg e) ->
+  to_grouping (e_pkg e) ms (full_entity e fl) = Some (grouping_view e).
+Proof.
+  intros ms e fl Hf. unfold to_grouping, full_entity.
+  cbn [cn_keys cn_state cn_event cn_name cn_query cn_commands].
+  assert (Ef : find (fun f => bytes_eqb (f_json f) (bs "event")) (m_fields (event_msg e))
+               = Some (mkF (bs "event") (TOneof [] (component_name e (bs "EventType"))) false true false false None (Some []))).
+  { reflexivity. }
+  rewrite Ef. cbn [f_type mkF]. rewrite Hf. f_equal. unfold grouping_view.
+  cbn [keys_msg event_type_msg state_msg m_fields m_name sv_name sv_methods query_service].
+  f_equal.
+  - apply primary_json.
+  - now rewrite map_map.
+  - now rewrite <- app_assoc.
+  - rewrite map_map. apply map_ext. intros c. f_equal. apply command_methods_names.
+Qed.
+
+Lemma in_main_file : forall l p m,
+  In p l -> In m (main_messages (expand_with (fst p) (snd p))) -> In m (main_messages (file_components l)).
+Proof.
+  induction l as [|q l IH]; intros p m Hp Hm; [destruct Hp|].
+  cbn [file_components flat_map]. rewrite main_messages_app. apply in_or_app.
+  destruct Hp as [->|Hp]; [now left|right]. fold (file_components l). now apply (IH p).
+Qed.
+
+Lemma all_some_map : forall {A B} (f : A -> option B) (g : A -> B) l,
+  (forall x, In x l -> f x = Some (g x)) -> all_some (map f l) = Some (map g l).
+Proof.
+  intros A B f g l H. induction l as [|x l IH]; [reflexivity|]. cbn [map all_some].
+  rewrite (H x (or_introl eq_refl)), IH; [reflexivity|]. intros y Hy. apply H. now right.
+Qed.
+
+(* several entities of one package: distinct entity names and no clash between the names of the
+   generated (and user) messages; the client shows one state entity per declaration, in order *)
+Theorem client_groups_file : forall pkg (l : list (entity * list bytes)),
+  (forall p, In p l -> e_pkg (fst p) = pkg) ->
+  NoDup (map (fun p => snake_name (fst p)) l) ->
+  NoDup (map m_name (main_messages (file_components l))) ->
+  client_of pkg (file_components l) = Some (map (fun p => grouping_view (fst p)) l).
+Proof.
+  intros pkg l Hpkg Hnd Hnames. unfold client_of, client_of_ordered.
+  change (msg_entity (main_messages (file_components l))) with m_psm.
+  unfold include_all.
+  rewrite (include_file_acc l [] Hnd) by (intros p _ H; exact H). cbn [app].
+  assert (Hc : forallb complete (map (fun p => the_entity (fst p) (snd p)) l) = true).
+  { apply forallb_forall. intros c Hc. apply in_map_iff in Hc. destruct Hc as [p [<- _]]. reflexivity. }
+  rewrite Hc, services_of_file.
+  pose proof (attach_file_acc l [] Hnd (fun p _ H => H)) as Ha. cbn [app] in Ha. rewrite Ha.
+  rewrite map_map.
+  assert (Hg : forall p, In p l ->
+            to_grouping pkg (main_messages (file_components l)) (full_entity (fst p) (snd p))
+            = Some (grouping_view (fst p))).
+  { intros p Hp. rewrite <- (Hpkg p Hp). apply to_grouping_full.
+    change (component_name (fst p) (bs "EventType")) with (m_name (event_type_msg (fst p))).
+    apply find_msg_nodup; [assumption|].
+    apply (in_main_file l p); [assumption|]. rewrite main_messages_expand.
+    apply in_or_app. left. cbn. auto. }
+  apply all_some_map. exact Hg.
 Qed.
